@@ -8,7 +8,7 @@ from .history import run_history, history_candidates, describe_history
 from ..engine import Outcome
 
 OPT_ATOMS = ["plat", "shift", "posix", "posixleak", "alloca", "incdiv", "incast", "cstyle", "aiob", "zerodiv", "unread",
-             "constparam", "ptrcast", "known", "nullred", "aiobcond", "uninit", "byvalue", "postfix", "member", "branches", "branches", "vfiter", "vfiter", "wchar2", "gnulib", "winlib", "c11assert", "cpp11assert", "override", "manycfg", "tstr", "tstr", "win64", "defval", "defval"]
+             "constparam", "ptrcast", "known", "nullred", "aiobcond", "uninit", "byvalue", "postfix", "member", "branches", "branches", "vfiter", "vfiter", "wchar2", "gnulib", "winlib", "c11assert", "cpp11assert", "override", "manycfg", "sysinc", "tstr", "tstr", "win64", "defval", "defval"]
 
 
 # atoms whose findings depend on the option (tools/opt_sensitivity.py checks that every pair of pool values is told apart)
@@ -21,7 +21,7 @@ SENSITIVE = {
     "--inconclusive": ["incdiv", "incast"],
     "--max-configs": ["manycfg", "defval"],
     "--check-level": ["branches", "vfiter"],
-    "--enable": ["unread", "constparam", "ptrcast", "known", "byvalue", "postfix"],
+    "--enable": ["unread", "nullred", "aiobcond", "ptrcast", "byvalue", "postfix", "sysinc", "nullred", "aiobcond"],   # style, warning, portability, performance, information
     "--suppress": ["zerodiv", "aiob", "unread"],
     "--inline-suppr": ["zerodiv", "aiob", "uninit"],
 }
@@ -68,7 +68,7 @@ class C19(PropBase):
             base["--enable"] = "--enable=style,warning,performance,portability"
         hist = [{"opts": base}, {"run": gen_run(rng)}]
         cur = dict(base)
-        walk = rng.shuffle(list(gen.OPTION_POOL[focus]))[:5] if focus else []
+        walk = rng.shuffle(list(gen.OPTION_POOL[focus]))[:6] if focus else []
         for step in range(len(walk) if focus else rng.randint(1, 4)):
             new = dict(cur)
             for k in ([focus] if focus else rng.sample(keys, rng.choice([1, 1, 1, 2, 3]))):
